@@ -643,7 +643,7 @@ def skel_method_ParseDID : List String :=
 
 /-- pkg/versions/1_0/operationparser/method.go:parseInitialState -/
 def skel_method_parseInitialState : List String :=
-  ["decodedJCS, err := encoder.DecodeString(initialState)", "if err != nil {", "  return nil, err", "}", "var createRequest model.CreateRequest", "err = json.Unmarshal(decodedJCS, &createRequest)", "if err != nil {", "  return nil, err", "}", "expected, err := canonicalizer.MarshalCanonical(createRequest)", "if err != nil {", "  return nil, err", "}", "if encoder.EncodeToString(expected) != initialState {", "  return nil, error(...)", "}", "createRequest.Operation = operation.TypeCreate", "return &createRequest, nil"]
+  ["decodedJCS, err := encoder.DecodeString(initialState)", "if err != nil {", "  return nil, err", "}", "var createRequest model.CreateRequest", "err = json.Unmarshal(decodedJCS, &createRequest)", "if err != nil {", "  return nil, err", "}", "expected, err := canonicalizer.MarshalCanonical(createRequest)", "if err != nil {", "  return nil, err", "}", "if encoder.EncodeToString(expected) != initialState {", "  return nil, error(...)", "}", "if createRequest.Operation != \"\" && createRequest.Operation != operation.TypeCreate {", "  return nil, error(...)", "}", "createRequest.Operation = operation.TypeCreate", "return &createRequest, nil"]
 
 /-- pkg/vdr/sidetreelongform/dochandler/dochandler.go:ResolveDocument -/
 def skel_dochandler_ResolveDocument : List String :=
@@ -943,7 +943,7 @@ def skel_jwk_MarshalJSON : List String :=
 
 /-- pkg/jwsutil/jwk.go:unmarshalSecp256k1 -/
 def skel_jwk_unmarshalSecp256k1 : List String :=
-  ["if jwk.X == nil {", "  return nil, ErrInvalidKey", "}", "if jwk.Y == nil {", "  return nil, ErrInvalidKey", "}", "curve := btcec.S256()", "if curveSize(curve) != len(jwk.X.data) {", "  return nil, ErrInvalidKey", "}", "if curveSize(curve) != len(jwk.Y.data) {", "  return nil, ErrInvalidKey", "}", "if jwk.D != nil && dSize(curve) != len(jwk.D.data) {", "  return nil, ErrInvalidKey", "}", "x := jwk.X.bigInt()", "y := jwk.Y.bigInt()", "if !curve.IsOnCurve(x, y) {", "  return nil, ErrInvalidKey", "}", "var key interface{}", "if jwk.D != nil {", "  key = &ecdsa.PrivateKey{...}", "} else {", "  key = &ecdsa.PublicKey{...}", "}", "return &JWK{...}, nil"]
+  ["if jwk.X == nil {", "  return nil, ErrInvalidKey", "}", "if jwk.Y == nil {", "  return nil, ErrInvalidKey", "}", "curve := btcec.S256()", "if curveSize(curve) != len(jwk.X.data) {", "  return nil, ErrInvalidKey", "}", "if curveSize(curve) != len(jwk.Y.data) {", "  return nil, ErrInvalidKey", "}", "if jwk.D != nil && dSize(curve) != len(jwk.D.data) {", "  return nil, ErrInvalidKey", "}", "x := jwk.X.bigInt()", "y := jwk.Y.bigInt()", "if x.Cmp(curve.Params().P) >= 0 || y.Cmp(curve.Params().P) >= 0 {", "  return nil, ErrInvalidKey", "}", "if !curve.IsOnCurve(x, y) {", "  return nil, ErrInvalidKey", "}", "var key interface{}", "if jwk.D != nil {", "  key = &ecdsa.PrivateKey{...}", "} else {", "  key = &ecdsa.PublicKey{...}", "}", "return &JWK{...}, nil"]
 
 /-- pkg/jwsutil/jwk.go:marshalSecp256k1 -/
 def skel_jwk_marshalSecp256k1 : List String :=
